@@ -263,6 +263,7 @@ def body(ck):
     ck.assumptions = ["stub draws tabulated per key path; float64 exact on dyadic data",
                       "PPO.train changes only float tables of the stub policy (values/log-probs), never its integer action tables, so behaviour during learn() is the model's"]
     ck.build_coq(); ck.compile_props()
+    ck.kernel_link()   # LoggingCallbackStepState.next regenerated from the source = Logging.l_next (coq/link/C19_link.v)
     quick = ck.tier == "quick"
     rng = ck.rng
     pre = "From Lerax Require Import Env Tab OnPolicy Logging.\nImport C19Check."
